@@ -405,14 +405,14 @@ Definition bedgraph_to_bigwig (fparse : list N -> option N) (cs_text in_text : l
   do sizes <- parse_chrom_sizes cs_text;
   do items <- mapM (parse_bedgraph fparse) (lines in_text);
   accept check_chrom sizes items.
-(* without --autosql the schema is generated from the first line: vals_iter.next().map(|v| bed_autosql(&v.unwrap().1.rest)),
-   so a first line that does not parse is a panic there, before the conversion starts *)
+(* without --autosql the schema is generated from the first line, read before the conversion starts; a first line
+   that does not parse is returned as an error there (repaired in /repo 46fc13d: it was `.unwrap()`, a panic) *)
 Definition bed_to_bigbed (has_autosql : bool) (cs_text in_text : list N) : res (list (wchrom bed_entry)) :=
   do sizes <- parse_chrom_sizes cs_text;
   do _ <- (if has_autosql then Ok tt
            else match lines in_text with
                 | [] => Ok tt
-                | l :: _ => match parse_bed l with Ok _ => Ok tt | _ => Panic end
+                | l :: _ => do _ <- parse_bed l; Ok tt
                 end);
   do items <- mapM parse_bed (lines in_text);
   accept bb_check_chrom sizes items.
